@@ -9,6 +9,7 @@ Definition LO (s : state) (m : label) : Prop := loaded (mods s m) = true /\ okre
 
 Section Rank.
 Variable loads : label -> list label.
+Variable bad : label -> bool.
 
 Fixpoint frames_ok (s : state) (above : option label) (st : list frame) : Prop :=
   match st with
@@ -28,7 +29,8 @@ Definition thr_ok (s : state) (T0 : thread) : Prop :=
 Record inv_rk (s : state) : Prop := {
   k_thr : forall tid, thr_ok s (thr s tid);
   k_lo : forall m, LO s m -> forall t, In t (loads m) -> LO s t /\ rank (mods s t) < rank (mods s m);
-  k_rank : forall m, loaded (mods s m) = true -> rank (mods s m) < ndone s
+  k_rank : forall m, loaded (mods s m) = true -> rank (mods s m) < ndone s;
+  k_bad : forall m, LO s m -> bad m = false
 }.
 
 Lemma inv_rk_init : forall roots, inv_rk (init roots).
@@ -37,6 +39,7 @@ Proof.
   - intros tid. destruct (init_thread roots tid) as [[r [_ ->]]|[_ ->]]; exact I.
   - intros m [H _]. cbn in H. discriminate.
   - intros m H. cbn in H. discriminate.
+  - intros m [H _]. cbn in H. discriminate.
 Qed.
 
 Lemma frames_ok_mono : forall s s' st a, (forall t, LO s t -> LO s' t) -> frames_ok s a st -> frames_ok s' a st.
@@ -70,7 +73,7 @@ Qed.
 Lemma rk_frame : forall s s' tid, inv_rk s -> same_res s s' -> ndone s' = ndone s ->
   (forall i, i <> tid -> thr s' i = thr s i) -> thr_ok s (thr s' tid) -> inv_rk s'.
 Proof.
-  intros s s' tid [Kt Kl Kr] Hs Hn Ho Ht.
+  intros s s' tid [Kt Kl Kr Kb] Hs Hn Ho Ht.
   assert (HLO : forall t, LO s t <-> LO s' t).
   { intros t. unfold LO. destruct (Hs t) as (-> & -> & _). tauto. }
   constructor.
@@ -79,14 +82,15 @@ Proof.
   - intros m Hm t Hin. apply HLO in Hm. destruct (Kl m Hm t Hin) as [H1 H2]. split; [now apply HLO|].
     destruct (Hs t) as (_ & _ & ->). destruct (Hs m) as (_ & _ & ->). auto.
   - intros m Hm. destruct (Hs m) as (Hl & _ & ->). rewrite Hl in Hm. rewrite Hn. auto.
+  - intros m Hm. apply Kb. now apply HLO.
 Qed.
 
 Lemma rk_done : forall s tid m ls rest b, inv_rk s -> inv_stk s ->
   stack (thr s tid) = (m, ls) :: rest ->
-  (b = true /\ ph (thr s tid) = PExec /\ ls = [] \/ b = false /\ ph (thr s tid) = PFail) ->
+  (b = negb (bad m) /\ ph (thr s tid) = PExec /\ ls = [] \/ b = false /\ ph (thr s tid) = PFail) ->
   inv_rk (set_thr (set_done s m b) tid (mkT rest (after_pop rest b))).
 Proof.
-  intros s tid m ls rest b [Kt Kl Kr] IS Hst Hb.
+  intros s tid m ls rest b [Kt Kl Kr Kb] IS Hst Hb.
   set (s' := set_thr (set_done s m b) tid (mkT rest (after_pop rest b))).
   assert (Hml : loaded (mods s m) = false).
   { eapply s_stnl with (tid := tid); eauto. rewrite (labels_top _ _ _ _ _ Hst). left; auto. }
@@ -102,11 +106,13 @@ Proof.
     - right. split; auto. unfold LO. rewrite <- (Hoth t Hne). auto. }
   assert (Hbelow : frames_ok s (Some m) rest /\ (b = true -> forall t, In t (loads m) -> LO s t)).
   { pose proof (Kt tid) as Hk. unfold thr_ok in Hk. rewrite Hst in Hk.
-    destruct Hb as [(-> & Hp & ->)|(-> & Hp)]; rewrite Hp in Hk.
+    destruct Hb as [(_ & Hp & ->)|(-> & Hp)]; rewrite Hp in Hk.
     - cbn in Hk. destruct Hk as [H1 H2]. split; auto. intros _ t Ht.
       destruct (H1 t Ht) as [[]|[?|?]]; [discriminate|auto].
     - split; auto. discriminate. }
   destruct Hbelow as [Hbel Hdeps].
+  assert (Hbad : b = true -> bad m = false).
+  { intros ->. destruct Hb as [(Hb & _)|(Hb & _)]; [|discriminate]. destruct (bad m); [discriminate|auto]. }
   constructor.
   - intros i.
     assert (Hts : thr s' tid = mkT rest (after_pop rest b)) by (unfold s'; proj_simpl; now rewrite upd_same).
@@ -130,13 +136,14 @@ Proof.
     destruct (Nat.eq_dec x m) as [->|Hne].
     + rewrite Hm'. cbn. lia.
     + rewrite Hoth in * by auto. specialize (Kr x Hx). lia.
+  - intros x Hx. destruct (Hback x Hx) as [[-> ->]|[Hne Hx0]]; auto.
 Qed.
 
 Ltac rkf IK tid :=
   apply (rk_frame _ _ tid IK); proj_simpl;
   [ | reflexivity | intros; rewrite upd_other by assumption; reflexivity | rewrite upd_same ].
 
-Lemma inv_rk_step : forall s tid s', inv_rk s -> inv_stk s -> kstep loads s tid s' -> inv_rk s'.
+Lemma inv_rk_step : forall s tid s', inv_rk s -> inv_stk s -> kstep loads bad s tid s' -> inv_rk s'.
 Proof.
   intros s tid s' IK IS K.
   pose proof (k_thr _ IK tid) as Hk. unfold thr_ok in Hk.
